@@ -38,6 +38,8 @@ VALUE_SHAPES = {
     'scalar': 7,
     'nested': [1, 'a', {'k2': [2, {'z': None, 'y': True}], 'k1': 1.5}],
     'placeholder': ['{DIR}/x', {'k': 'a{DIR}b'}],
+    # equal sub-values at several places (written out twice, or written once and referred to twice)
+    'twins': {'train': ['id', 'text', {'k': [1]}], 'test': ['id', 'text', {'k': [1]}], 'all': [['id', 'text', {'k': [1]}], {'k': [1]}]},
     'auto-scalar': {'__obj__': 'Auto1', 'kwargs': {'a': 1, 'b': 'x'}},
     'auto-list': {'__obj__': 'Auto1', 'kwargs': {'a': [1, [2, 'x']], 'b': 2}},
     'auto-dict': {'__obj__': 'Auto1', 'kwargs': {'a': {'k1': 1, 'k2': 2}}},
@@ -62,7 +64,7 @@ def bases(tier):
         if name == 'mount2':
             d['context'] = worlds.apply_variant(families.mount2(), 'v12')['context']
         out.append(d)
-    shapes = list(VALUE_SHAPES) if tier != 'quick' else ['nested', 'placeholder', 'auto-list', 'auto-dict', 'auto-set', 'auto-raw', 'plain-kwargs', 'auto-default', 'auto-in-list']
+    shapes = list(VALUE_SHAPES) if tier != 'quick' else ['nested', 'placeholder', 'twins', 'auto-list', 'auto-dict', 'auto-set', 'auto-raw', 'plain-kwargs', 'auto-default', 'auto-in-list']
     for s in shapes:
         out.append(pvals(VALUE_SHAPES[s], s))
     return out
@@ -135,6 +137,44 @@ def _prefix_ctx(ctx, ns):
             u['as'] = f'{ns}::{u["as"]}'
         else:
             _prefix_ctx(u['ctx'], ns)
+
+
+def rw_alias_equal(d):
+    """equal containers inside a config's values become ONE object referred to from every place (a YAML anchor with aliases; one Python
+    list reused in a dict config): the value is the same, so is the location"""
+    ch = False
+    for c in d['configs'].values():
+        if c['medium'] not in ('json', 'yaml', 'inline'):
+            continue
+        seen = []
+
+        def canon(v):
+            for s_ in seen:
+                if type(s_) is type(v) and s_ == v:
+                    return s_
+            seen.append(v)
+            return None
+
+        def walk(o):
+            nonlocal ch
+            items = o.items() if isinstance(o, dict) else enumerate(o)
+            for k, v in list(items):
+                if isinstance(v, (list, dict)) and not (isinstance(v, dict) and '__obj__' in v):
+                    first = canon(v)
+                    if first is not None and first is not v:
+                        o[k] = first
+                        ch = True
+                    elif first is None:
+                        walk(v)
+        walk(c.get('values', {}))
+        if ch and c['medium'] == 'json':
+            if c.get('file'):
+                c['file'] = c['file'].rsplit('.', 1)[0] + '.yaml'
+            c['medium'] = 'yaml'
+    if not ch or d.get('_aliased'):
+        return None
+    d['_aliased'] = True
+    return d
 
 
 def rw_perm_lists(d):
@@ -336,7 +376,7 @@ def rw_add_optional(d):
     return d
 
 
-REWRITINGS = [rw_obj_unpersisted_args, rw_default_equal_other_form, rw_rename, rw_move, rw_media, rw_wrap('o'), rw_wrap('o::p'), rw_perm_lists, rw_perm_keys, rw_perm_obj_dict, rw_perm_obj_kwargs, rw_ignored, rw_default_spell,
+REWRITINGS = [rw_alias_equal, rw_obj_unpersisted_args, rw_default_equal_other_form, rw_rename, rw_move, rw_media, rw_wrap('o'), rw_wrap('o::p'), rw_perm_lists, rw_perm_keys, rw_perm_obj_dict, rw_perm_obj_kwargs, rw_ignored, rw_default_spell,
               rw_to_context('dict'), rw_to_context('json'), rw_to_context('list'), rw_global_var, rw_perm_meta, rw_add_optional]
 
 
